@@ -12,8 +12,8 @@ import (
 )
 
 func init() {
-	register("C09", "Linking: (R1) the set of AST fields the walker writes is exactly the 'requires validation' set (13 links + Used); every unconditional link of a node is stored on every path before that node's observers run; (R2) every conditional link (value links, the type in scope of an inline fragment) is control-dependent only on the resolvability tests it needs (frozen guard table: nil tests of the looked-up definition, kind tests, CurrentOperation) — an extra guard can only drop links of valid documents; (R3) provenance — each stored link is the lookup the property names (field definition on the parent type by the field's own name, directive definition by name, fragment by name, list child from Elem, object child from the field found under the child's name, argument from the argument definition found under the argument's name); (R4) CurrentOperation is set before, and cleared after, every walk inside walkOperation; (R5) every child of every node is walked before the node's observers run (shared with C08.R3). (R3 also) the argument definition handed to walkArgument is found under the argument own name on the list of the field or directive walked. (R6) the links are written by the walker only.", runC09)
-	register("C08", "Validation coverage (weak, structural): (R1) the rules registered by init functions are exactly the specification's rules the library implements plus KnownRootType and MaxIntrospectionDepth, and every exported Rule is registered or a WithoutSuggestions twin; (R2) every schema attribute the specification's validation rules depend on is read by code reachable from the default rules and the walker; (R3) every event list is dispatched, for every node kind, on every path, and every child-bearing field of every executable node is walked (directives with the location constant of their node) before the node's observers run; (R4) type compatibility (Type.IsCompatible) compares like with like and reads NonNull of both sides at every level; the pair cache of the field-merge algorithm answers 'already compared' for a non-exclusive query only from a non-exclusive entry; (R5) a visited set that keeps its entries (a memo) cuts a traversal only when every used scalar parameter that changes while the set is in use is part of its key. (R3 also) the fragment visited set is renewed per operation. (R6) the links and expected types the rules read have the provenance and guards the specification names (C09.R2/R3).", runC08)
+	register("C09", "Linking: (R1) the set of AST fields the walker writes is exactly the 'requires validation' set (13 links + Used); every unconditional link of a node is stored on every path before that node's observers run; (R2) every conditional link (value links, the type in scope of an inline fragment) is control-dependent only on the resolvability tests it needs (frozen guard table: nil tests of the looked-up definition, kind tests, CurrentOperation) — an extra guard can only drop links of valid documents; (R3) provenance — each stored link is the lookup the property names (field definition on the parent type by the field's own name, directive definition by name, fragment by name, list child from Elem, object child from the field found under the child's name, argument from the argument definition found under the argument's name); (R4) CurrentOperation is set before, and cleared after, every walk inside walkOperation; (R5) every child of every node is walked before the node's observers run (shared with C08.R3). (R3 also) the argument definition handed to walkArgument is found under the argument own name on the list of the field or directive walked. (R6) the links are written by the walker only. (R7) outside the loader no type is looked up under a fixed name.", runC09)
+	register("C08", "Validation coverage (weak, structural): (R1) the rules registered by init functions are exactly the specification's rules the library implements plus KnownRootType and MaxIntrospectionDepth, and every exported Rule is registered or a WithoutSuggestions twin; (R2) every schema attribute the specification's validation rules depend on is read by code reachable from the default rules and the walker; (R3) every event list is dispatched, for every node kind, on every path, and every child-bearing field of every executable node is walked (directives with the location constant of their node) before the node's observers run; (R4) type compatibility (Type.IsCompatible) compares like with like and reads NonNull of both sides at every level; the pair cache of the field-merge algorithm answers 'already compared' for a non-exclusive query only from a non-exclusive entry; (R5) a visited set that keeps its entries (a memo) cuts a traversal only when every used scalar parameter that changes while the set is in use is part of its key. (R3 also) the fragment visited set is renewed per operation. (R6) the links and expected types the rules read have the provenance and guards the specification names (C09.R2/R3). (R7) outside the loader no type is looked up under a fixed name; (R8) the null-for-non-null test of ValuesOfCorrectType cannot be bypassed.", runC08)
 }
 
 // ---------------------------------------------------------------------------
@@ -472,6 +472,9 @@ func runC09(c *Ctx) {
 	// ---- R6 nobody else rewrites a link
 	r6 := c.Rule("R6", "the links are written by the walker only", 1)
 	c09OnlyWalkerWrites(c, r6, m)
+
+	r7 := c.Rule("R7", "outside the loader no type is looked up under a fixed name (roots come from the loader's pointers)", 1)
+	noRootByName(c, r7)
 }
 
 // c09OnlyWalkerWrites: outside the walker (and the parser, which builds the nodes, and the JSON decoder, which builds
@@ -1557,6 +1560,12 @@ func runC08(c *Ctx) {
 	written := walkerWrites(m)
 	c09Provenance(c, r6, m, written)
 	c09Guards(c, r6, m, written)
+
+	r7 := c.Rule("R7", "outside the loader no type is looked up under a fixed name (roots come from the loader's pointers)", 1)
+	noRootByName(c, r7)
+
+	r8 := c.Rule("R8", "the null-for-non-null test of ValuesOfCorrectType cannot be bypassed", 1)
+	c08NullTestFirst(c, r8)
 }
 
 // typeCaseEntry: the block entered when `it.(type)` is *ast.<name>.
@@ -1998,4 +2007,189 @@ func listWalker(h, callee *ssa.Function, argIdx int) (int, bool) {
 		return paramIndex(h, prm), true
 	}
 	return -1, false
+}
+
+// noRootByName (C08.R7, C09.R7): outside the schema loader nothing looks a type up in Schema.Types under a constant
+// name. Which type is the root of an operation kind is decided once, by the loader (Schema.Query / Mutation /
+// Subscription); a rule or the walker that falls back to a type that merely is called "Mutation" disagrees with the
+// other about what the root is — one accepts the operation, the other leaves it unlinked.
+func noRootByName(c *Ctx, r *RuleResult) {
+	p := c.P
+	e := newEffects(p)
+	var vroots []*ssa.Function
+	for _, nme := range []string{"validator.Validate", "validator.VariableValues", "ast.(*Field).ArgumentMap", "ast.(*Directive).ArgumentMap"} {
+		if f := p.Func(nme); f != nil {
+			vroots = append(vroots, f)
+		}
+	}
+	for _, f := range p.FuncsIn("validator/rules") {
+		vroots = append(vroots, f)
+	}
+	for _, f := range p.FuncsIn("formatter") {
+		vroots = append(vroots, f)
+	}
+	fromValidation := p.reachableFrom(vroots, e.dyn)
+	n, bad := 0, 0
+	var keyConsts func(v ssa.Value, depth int) []string
+	keyConsts = func(v ssa.Value, depth int) []string {
+		if depth > 3 {
+			return nil
+		}
+		v = unspill(stripChange(v))
+		if s, ok := constString(v); ok {
+			return []string{s}
+		}
+		switch x := v.(type) {
+		case *ssa.Phi:
+			var out []string
+			for _, e := range x.Edges {
+				out = append(out, keyConsts(e, depth+1)...)
+			}
+			return out
+		case *ssa.Parameter:
+			fn := x.Parent()
+			idx := paramIndex(fn, x)
+			var out []string
+			for _, ci := range callSitesOf(p, fn) {
+				if idx >= 0 && idx < len(ci.Common().Args) {
+					out = append(out, keyConsts(ci.Common().Args[idx], depth+1)...)
+				}
+			}
+			return out
+		case *ssa.Convert:
+			return keyConsts(x.X, depth+1)
+		}
+		return nil
+	}
+	for _, rel := range []string{"validator", "validator/rules", "ast", "formatter", ""} {
+		for _, fn := range p.FuncsIn(rel) {
+			if len(fn.Blocks) == 0 || !(fromValidation[fn] || fromValidation[rootFunc(fn)]) {
+				continue
+			}
+			if nm := rootFunc(fn).Name(); nm == "init" || strings.HasPrefix(nm, "init#") {
+				continue
+			}
+			allInstrs(fn, func(in ssa.Instruction) {
+				l, ok := schemaMapLookup(in, "Types")
+				if !ok {
+					return
+				}
+				n++
+				var named []string
+				for _, k := range keyConsts(l.Index, 0) {
+					if !strings.HasPrefix(k, "__") {
+						named = append(named, k)
+					}
+				}
+				if len(named) > 0 {
+					bad++
+					sort.Strings(named)
+					r.Fail(in.Pos(), p.FuncName(fn), "Schema.Types looked up under the constant "+strings.Join(dedupe(named), ", "), "outside the loader a type is found by the name a document or another definition gives, never by a fixed name: a fallback to the type called "+strings.Join(dedupe(named), "/")+" makes this code and the walker (which uses the root pointers the loader set) disagree about the root of an operation")
+				}
+			})
+		}
+	}
+	if n == 0 {
+		r.AnchorLost("lookups of Schema.Types outside the loader")
+	} else if bad == 0 {
+		r.OK(fmt.Sprintf("%d lookups of Schema.Types outside the loader", n), "none under a fixed type name")
+	}
+}
+
+// c08NullTestFirst (C08.R8): in the value observer of ValuesOfCorrectType, the test of the expected type's NonNull flag
+// (null is no value of a non-null type, whatever the named type — custom scalars included) lies on every path from the
+// observer's entry to a return, except the paths that leave because an annotation is missing.
+func c08NullTestFirst(c *Ctx, r *RuleResult) {
+	p := c.P
+	vct := p.Func("rules.ruleFuncValuesOfCorrectType")
+	valueFn := p.Func("ast.(*Value).Value")
+	if vct == nil || valueFn == nil {
+		r.AnchorLost("rules.ruleFuncValuesOfCorrectType / ast.(*Value).Value")
+		return
+	}
+	var obs *ssa.Function
+	for _, cl := range withClosures(vct) {
+		if cl.Parent() == vct && len(callsTo([]*ssa.Function{cl}, valueFn)) > 0 {
+			obs = cl
+		}
+	}
+	if obs == nil {
+		r.AnchorLost("the value observer of ValuesOfCorrectType")
+		return
+	}
+	// blocks that branch on Value.ExpectedType.NonNull (directly, or as part of `Kind == Null && NonNull`)
+	tests := map[*ssa.BasicBlock]bool{}
+	for _, b := range obs.Blocks {
+		ifi, ok := b.Instrs[len(b.Instrs)-1].(*ssa.If)
+		if !ok {
+			continue
+		}
+		cd := normCond(Cond{V: ifi.Cond, True: true})
+		if st, f, ok := fieldLoadOf(cd.V); ok && st == "Type" && f == "NonNull" {
+			if u, isU := unspill(stripChange(cd.V)).(*ssa.UnOp); isU {
+				if fa, isFA := u.X.(*ssa.FieldAddr); isFA && loadOfField(fa.X, "Value", "ExpectedType") {
+					tests[b] = true
+				}
+			}
+		}
+	}
+	if len(tests) == 0 {
+		r.Fail(obs.Pos(), p.FuncName(obs), "no test of Value.ExpectedType.NonNull", "the value observer no longer looks at the NonNull flag of the expected type: a null literal in a non-null position is not reported")
+		return
+	}
+	exempt := func(from, to *ssa.BasicBlock) bool {
+		if nilEdge(from, to, func(v ssa.Value) bool {
+			st, f, ok := fieldLoadOf(v)
+			return ok && st == "Value" && (f == "Definition" || f == "ExpectedType")
+		}) {
+			return true
+		}
+		// the edge taken because the value is not the null literal: the NonNull test concerns null only
+		ifi, ok := from.Instrs[len(from.Instrs)-1].(*ssa.If)
+		if !ok || len(from.Succs) != 2 {
+			return false
+		}
+		cd := normCond(Cond{V: ifi.Cond, True: to == from.Succs[0]})
+		if bo, ok := cd.V.(*ssa.BinOp); ok && (bo.Op == token.EQL || bo.Op == token.NEQ) && loadOfField(bo.X, "Value", "Kind") {
+			if k, isK := constInt(bo.Y); isK && k == valueKindConst(p, "NullValue") {
+				return (bo.Op == token.EQL) != cd.True
+			}
+		}
+		return false
+	}
+	rr := reachAvoiding(obs.Blocks[0], func(b *ssa.BasicBlock) bool { return tests[b] }, exempt)
+	n := 0
+	for b := range rr {
+		ret, ok := b.Instrs[len(b.Instrs)-1].(*ssa.Return)
+		if !ok {
+			continue
+		}
+		var gs []string
+		for _, cd := range condsAt(b) {
+			if structuralGuard(cd) {
+				continue
+			}
+			gs = append(gs, guardDesc(cd))
+		}
+		sort.Strings(gs)
+		n++
+		r.Fail(ret.Pos(), p.FuncName(obs), "return before the NonNull test under "+strings.Join(gs, " && "), "the value observer can return (under "+strings.Join(gs, " && ")+") for a null literal without having looked at the NonNull flag of its expected type: null is then accepted in a non-null position of that kind")
+	}
+	if n == 0 {
+		r.OK("the NonNull test of the expected type is on every path of the value observer that a null literal can take", "(paths left because an annotation is missing excepted)")
+	}
+}
+
+// valueKindConst: the numeric value of ast.<name> (a ValueKind constant).
+func valueKindConst(p *Program, name string) int64 {
+	pk := p.SPkgs["ast"]
+	if pk == nil {
+		return -1
+	}
+	if cst, ok := pk.Pkg.Scope().Lookup(name).(*types.Const); ok {
+		if v, ok := constantInt(cst); ok {
+			return v
+		}
+	}
+	return -1
 }
